@@ -132,10 +132,18 @@ class P:
             self.next()
         self.eat("fn")
         name = self.next()[1]
-        if self.at("<"):
-            raise Unsupported("generic fn")
-        self.eat("(")
         params = []
+        if self.accept("<"):
+            while not self.at(">"):
+                if not self.accept("const"):
+                    raise Unsupported("generic type parameter")
+                gn = self.next()[1]
+                self.eat(":")
+                params.append((gn, self.ty()))
+                if not self.accept(","):
+                    break
+            self.eat(">")
+        self.eat("(")
         while not self.at(")"):
             k0 = 0
             while self.peek(k0)[1] in ("&", "mut"):
@@ -513,6 +521,8 @@ class Tr:
                 return [], "(B - 1)", "u64"
             if p == "u128::MAX":
                 return [], "(BB - 1)", "u128"
+            if p in ("Ordering::Less", "Ordering::Equal", "Ordering::Greater"):
+                return [], {"Less": "Lt", "Equal": "Eq", "Greater": "Gt"}[e[1][1]], "ordering"
             if e[1][0] == "Self" and len(e[1]) == 2 and f.selfty == "uint":
                 c = e[1][1]
                 if c == "ZERO":
@@ -806,7 +816,7 @@ class Tr:
         name = self.alias.get(name, name)
         if name.startswith("Self::") and f.selfty == "uint" and ("U." + name[6:]) in self.sigs:
             return self.apply(f, "U." + name[6:], args, env)
-        if name in ("crate::algorithms::cmp", "algorithms::cmp"):
+        if name in ("crate::algorithms::cmp", "algorithms::cmp", "cmp") and "cmp" not in self.sigs:
             # slice comparison: NOT translated; Model/Add.v limbs_cmp (tie: C15 / C04 correspondence)
             b1, a1, _ = self.ex(f, args[0], env)
             b2, a2, _ = self.ex(f, args[1], env)
@@ -840,6 +850,14 @@ class Tr:
                 return b1 + b2 + ["let '(%s, %s) := Limbs.addmul %s %s %s in" % (nm, o, nm, paren(a1), paren(a2))], o, "bool"
             f.impure = True
             return b1 + b2 + ["do %s <- Limbs.addmul_n %s %s %s ;" % (nm, nm, paren(a1), paren(a2))], "tt", ("tuple", [])
+        if name == "reduce1_carry" and "reduce1_carry" not in self.sigs:
+            # final conditional subtraction (`zip` iterators): NOT translated; Model/Redc.v reduce1_carry
+            bs, atoms = [], []
+            for a in args:
+                b, x, _ = self.ex(f, a, env)
+                bs += b
+                atoms.append(paren(x))
+            return bs, "(Redc.reduce1_carry %s)" % " ".join(atoms), ("arr", "u64", "N")
         if name not in self.sigs:
             raise Unsupported("call to untranslated function " + name)
         return self.apply(f, name, args, env)
@@ -930,7 +948,7 @@ class Tr:
             f.impure = True
             v = f.fresh()
             return br + ["do %s <- (match %s with Some x_ => Val x_ | None => Panic end) ;" % (v, ar)], v, tr_[1]
-        if m == "len" and isinstance(tr_, tuple) and tr_[0] == "slice":
+        if m == "len" and isinstance(tr_, tuple) and tr_[0] in ("slice", "arr"):
             return br, "(lenZ %s)" % paren(ar), "usize"
         if m in ("wrapping_add", "wrapping_sub", "wrapping_mul"):
             b, a, t = self.ex(f, args[0], env, tr_)
@@ -1057,10 +1075,8 @@ class Tr:
                 return t
             if t[:2] == ("un", "*") and t[2] == ("var", x):
                 return elem
-            if t == ("var", x) and x != src[1]:
-                return elem
             if t == ("var", x):
-                raise Unsupported("loop variable used without dereference while shadowing the slice")
+                return elem           # by-value iteration, or auto-deref; a shadowed slice name is not reachable
             return tuple(sub(y) for y in t)
         if rev:
             return ("fordown", ix, ("mcall", src, "len", []), None, sub(body))
@@ -1227,6 +1243,9 @@ class Tr:
                     b1, a1, t1 = self.ex(f, e[2][0], env)
                     b2, a2, t2 = self.ex(f, e[2][1], env, t1)
                     f.impure = True
+                    if t1 == "ordering":
+                        return "%s if negb (match %s, %s with Lt, Lt | Eq, Eq | Gt, Gt => true | _, _ => false end) then DebugPanic else\n  %s" % (
+                            " ".join(b1 + b2), a1, a2, rest(env))
                     return "%s if negb (%s =? %s) then DebugPanic else\n  %s" % (
                         " ".join(b1 + b2), paren(a1), paren(a2), rest(env))
                 raise Unsupported("macro " + e[1])
@@ -1413,7 +1432,7 @@ def fn_text(txt, name, after=None):
         start = txt.find(after)
         if start < 0:
             raise Unsupported("marker %r not found" % after)
-    m = re.compile(r"\bfn\s+%s\s*\(" % re.escape(name)).search(txt, start)
+    m = re.compile(r"\bfn\s+%s\s*(?:<[^>(]*>)?\s*\(" % re.escape(name)).search(txt, start)
     if not m:
         raise Unsupported("fn %s not found" % name)
     i = txt.index("{", m.end())
@@ -1476,6 +1495,8 @@ TARGETS = [
     ("src/algorithms/div/small.rs", None, "div_nx2_normalized", "div_nx2_normalized", "g_div_nx2_normalized", None),
     ("src/algorithms/div/small.rs", None, "div_nx1", "div_nx1", "g_div_nx1", None),
     ("src/algorithms/div/small.rs", None, "div_nx2", "div_nx2", "g_div_nx2", None),
+    # Montgomery multiplication: const-generic arrays, nested counted loops (reduce1_carry: model function)
+    ("src/algorithms/mul_redc.rs", None, "mul_redc", "mul_redc", "g_mul_redc", None),
     # inherent methods of Uint<BITS, LIMBS>: generated with leading (BITS LIMBS : Z) parameters
     ("src/lib.rs", UINT_IMPL, "masked", "U.masked", "g_masked", "uint"),
     ("src/lib.rs", UINT_IMPL, "from_limbs", "U.from_limbs", "g_from_limbs", "uint"),
@@ -1576,7 +1597,7 @@ def translate(repo):
             status[gname] = "unsupported: %s" % ex
     head = ("(* GENERATED by tools_rs2v.py from the current text of /repo — do not edit.\n"
             "   One definition per translated Rust function; see Gen/Prim.v for the primitives. *)\n"
-            "From RV.Model Require Import Base Word.\nFrom RV.Model Require Limbs Add Div UDiv.\nFrom RV.Gen Require Import Prim.\n\n")
+            "From RV.Model Require Import Base Word.\nFrom RV.Model Require Limbs Add Div UDiv Redc.\nFrom RV.Gen Require Import Prim.\n\n")
     return head + "\n\n".join(tr.out) + "\n", status
 
 
